@@ -155,6 +155,32 @@ Qed.
 Lemma hdr_decode_firstn : forall s, (10 <= length s)%nat -> hdr_decode (firstn 10 s) = hdr_decode s.
 Proof. intros s H. ten_bytes s H. reflexivity. Qed.
 
+(* reading in pieces = reading at once: ReadFull over any fragmentation of the stream collects
+   exactly the first [need] bytes of the concatenation *)
+Lemma read_full_concat : forall chunks need,
+  read_full need chunks = firstn need (concat chunks).
+Proof.
+  induction chunks as [|c rest IH]; intros need; cbn [read_full concat].
+  - rewrite firstn_nil. reflexivity.
+  - rewrite firstn_app. destruct (Nat.leb_spec need (length c)) as [L|G].
+    + replace (need - length c)%nat with 0%nat by lia. cbn [firstn]. rewrite app_nil_r. reflexivity.
+    + rewrite IH. rewrite (firstn_all2 (n := need) c) by lia. reflexivity.
+Qed.
+
+(* so the header that readHeader returns does not depend on how the transport fragments it *)
+Lemma read_header_chunks_concat : forall chunks,
+  read_header_chunks chunks = read_header (concat chunks).
+Proof.
+  intros. unfold read_header_chunks. rewrite read_full_concat, read_header_spec.
+  destruct (Nat.ltb_spec (length (concat chunks)) 10) as [L|G].
+  - rewrite firstn_all2 by lia. destruct (Nat.ltb_spec (length (concat chunks)) 10); [reflexivity|lia].
+  - rewrite firstn_length_le by lia. reflexivity.
+Qed.
+
+Lemma read_header_chunks_indep : forall chunks chunks',
+  concat chunks = concat chunks' -> read_header_chunks chunks = read_header_chunks chunks'.
+Proof. intros c c' H. rewrite !read_header_chunks_concat, H. reflexivity. Qed.
+
 (* ------------------------------------------------------------------ the encoder *)
 
 Lemma validate_header_true : forall len typ,
